@@ -242,7 +242,9 @@ func genC01Scenario(seed int64, idx int) c01Scenario {
 		}
 	default: // file events on malformed files
 		sc.kind = "file-events"
-		sc.files["main.lua"] = c01Valid(r, 3)
+		// (fixed tail: table-constructor keys named like the variable that owns the table, with another definition of that
+		// variable elsewhere — the retry loop of go-to-definition once never ended on these)
+		sc.files["main.lua"] = c01Valid(r, 3) + "if zq then\ntq = {tq=1}\nend\ntq = nil\nlocal aq, aq = {aq=1}, 2\nuq = 1\n_G = {uq={uq=1}}\nrepeat\nbq, bq.bq.bq = print()\nuntil zq\nwq.wq, bq = {bq=1}\n"
 		sc.files["a.lua"] = genSoup(r, 40)
 		sc.files["b.lua"] = c01Valid(r, 3)
 	}
@@ -306,6 +308,11 @@ func runC01Scenario(sc c01Scenario, idx int, res *lib.Result) {
 			}
 			if k := strings.Index(l, ")."); k >= 0 {
 				cols = append(cols, k+2, k+3) // a member reached through a call
+			}
+			for k := 0; k < len(l) && len(cols) < 12; k++ {
+				if l[k] == '{' {
+					cols = append(cols, k+1) // the first key of a table constructor
+				}
 			}
 			for _, c := range cols {
 				for _, m := range c01Methods {
